@@ -187,7 +187,7 @@ CHECKS = {
                 "scheduler's deadlock detector, not by a timeout; no camera thread survives stop.",
         "note": "Trusts the vsim model (sequential consistency; scheduling points at platform calls and, in about a quarter of the cases, at "
                 "generated basic-block edges of simulated.camera.c and the HAL camera.c). Triggers are counted when the call starts. In runs where caller A makes frame calls, B does not, "
-                "so that B (the only one who triggers/stops) cannot starve itself. Trigger-enable values are 1, 2, 0x80, 0xfe; per-run oracles are applied to frame calls that lie within one run.",
+                "so that B (the only one who triggers/stops) cannot starve itself. Trigger-enable values are 1, 2, 0x80, 0xfe; per-run oracles are applied to frame calls that lie within one run. One genuine defect is recorded as a known finding (known_findings.txt, DESIGN.md 8.1a): the HAL's unsynchronised failure path of a frame call that began during a stop acting on the run started since; cases with such a call on record are reported under that one signature.",
         "technique": "property-based testing over generated schedules (deterministic scheduler, PCT/walk) with history invariants and deadlock detection",
         "design_ref": "DESIGN.md section 3, harness simcam, C18",
     },
